@@ -29,6 +29,7 @@ class ScriptedServer:
         self.tls = tls
         self.conns = []
         self.cert_queue = []      # certificates for the next connections (then self.cert)
+        self.tls12 = False        # TLS 1.2 only (server Finished is the last handshake message)
         sim.net.register_raw_listener(host, port, self.accept)
 
     def accept(self, ep):
@@ -41,7 +42,7 @@ class ScriptedServer:
             kw["read_pause_until"] = self.sim.net.now + beh["pause"]
         cert = self.cert_queue.pop(0) if self.cert_queue else self.cert
         peer = RawPeer(self.sim.net, ep, beh.get("script", [("wait_line",), ("stall",)]),
-                       tls_ctx=fx.server_ctx(cert) if self.tls else None, server_side=True,
+                       tls_ctx=fx.server_ctx(cert, self.tls12) if self.tls else None, server_side=True,
                        polite_close=beh.get("polite_close", True),
                        name=f"{self.host}:{self.port}#{idx}", keep_cipher=True, **kw)
         peer.cert_presented = cert
